@@ -249,4 +249,111 @@ theorem Catalog.oplog_set (c : Catalog) (x : Coll) : (c.set oplogHandle x).oplog
   unfold Catalog.oplog
   rw [Catalog.get?_set_self]; rfl
 
+/-! ## Part 2 — appending events -/
+
+theorem Catalog.get?_clock (c : Catalog) (k : Nat) (h : Handle) : ({ c with clock := k } : Catalog).get? h = c.get? h := rfl
+
+theorem Catalog.oplog_clock (c : Catalog) (k : Nat) : ({ c with clock := k } : Catalog).oplog = c.oplog := rfl
+
+/-- what `Transaction.append` is called with -/
+structure EvSpec where
+  h : Handle
+  op : String
+  doc : Option Doc
+  changes : Option (List (String × V))
+
+def appendEv (cn : Catalog × Nu) (e : EvSpec) : Catalog × Nu := appendOplog cn.1 cn.2 e.h e.op e.doc e.changes
+
+def appendEvs (cn : Catalog × Nu) (es : List EvSpec) : Catalog × Nu := es.foldl appendEv cn
+
+/-- the event documents produced by appending `es` when the clock stands at `clock` -/
+def evDocs : Nat → List EvSpec → List Doc
+  | _, [] => []
+  | clock, e :: r => oplogEvent (clock + 1) e.h e.op e.doc e.changes :: evDocs (clock + 1) r
+
+theorem evDocs_length (k : Nat) (es : List EvSpec) : (evDocs k es).length = es.length := by
+  induction es generalizing k with
+  | nil => rfl
+  | cons e r ih => simp [evDocs, ih]
+
+theorem evDocs_append (k : Nat) (es fs : List EvSpec) :
+    evDocs k (es ++ fs) = evDocs k es ++ evDocs (k + es.length) fs := by
+  induction es generalizing k with
+  | nil => simp [evDocs]
+  | cons e r ih =>
+    simp only [List.cons_append, evDocs, ih, List.length_cons]
+    have : k + 1 + r.length = k + (r.length + 1) := by omega
+    rw [this]
+
+theorem appendOplog_get_other (c : Catalog) (nu : Nu) (h : Handle) (op : String) (doc : Option Doc)
+    (ch : Option (List (String × V))) (h' : Handle) (hne : h' ≠ oplogHandle) :
+    (appendOplog c nu h op doc ch).1.get? h' = c.get? h' := by
+  unfold appendOplog
+  simp only [Nu.fresh]
+  rw [Catalog.get?_clock, Catalog.get?_set_other _ _ _ _ hne]
+
+theorem appendOplog_oplog (c : Catalog) (nu : Nu) (h : Handle) (op : String) (doc : Option Doc)
+    (ch : Option (List (String × V))) :
+    (appendOplog c nu h op doc ch).1.oplog
+      = c.oplog ++ [{ id := nu.nextId, doc := oplogEvent (c.clock + 1) h op doc ch }] := by
+  unfold appendOplog
+  simp only [Nu.fresh]
+  rw [Catalog.oplog_clock, Catalog.oplog_set]
+  rfl
+
+theorem appendOplog_clock (c : Catalog) (nu : Nu) (h : Handle) (op : String) (doc : Option Doc)
+    (ch : Option (List (String × V))) : (appendOplog c nu h op doc ch).1.clock = c.clock + 1 := rfl
+
+theorem appendOplog_nu (c : Catalog) (nu : Nu) (h : Handle) (op : String) (doc : Option Doc)
+    (ch : Option (List (String × V))) :
+    (appendOplog c nu h op doc ch).2 = { nu with nextId := nu.nextId + 1 } := rfl
+
+theorem appendEvs_get_other (cn : Catalog × Nu) (es : List EvSpec) (h' : Handle) (hne : h' ≠ oplogHandle) :
+    (appendEvs cn es).1.get? h' = cn.1.get? h' := by
+  induction es generalizing cn with
+  | nil => rfl
+  | cons e r ih =>
+    simp only [appendEvs, List.foldl_cons] at ih ⊢
+    rw [ih (appendEv cn e)]
+    exact appendOplog_get_other _ _ _ _ _ _ _ hne
+
+theorem appendEvs_clock (cn : Catalog × Nu) (es : List EvSpec) :
+    (appendEvs cn es).1.clock = cn.1.clock + es.length := by
+  induction es generalizing cn with
+  | nil => rfl
+  | cons e r ih =>
+    simp only [appendEvs, List.foldl_cons, List.length_cons] at ih ⊢
+    rw [ih (appendEv cn e)]
+    simp only [appendEv, appendOplog_clock]
+    omega
+
+theorem appendEvs_oplog (cn : Catalog × Nu) (es : List EvSpec) :
+    (appendEvs cn es).1.oplog.map (·.doc) = cn.1.oplog.map (·.doc) ++ evDocs cn.1.clock es := by
+  induction es generalizing cn with
+  | nil => simp [appendEvs, evDocs]
+  | cons e r ih =>
+    simp only [appendEvs, List.foldl_cons] at ih ⊢
+    rw [ih (appendEv cn e)]
+    simp only [appendEv, appendOplog_oplog, appendOplog_clock, List.map_append, List.map_cons, List.map_nil,
+      evDocs, List.append_assoc, List.cons_append, List.nil_append]
+
+theorem appendEvs_nu (cn : Catalog × Nu) (es : List EvSpec) :
+    (appendEvs cn es).2 = { cn.2 with nextId := cn.2.nextId + es.length } := by
+  induction es generalizing cn with
+  | nil => rfl
+  | cons e r ih =>
+    simp only [appendEvs, List.foldl_cons, List.length_cons] at ih ⊢
+    rw [ih (appendEv cn e)]
+    simp only [appendEv, appendOplog_nu]
+    congr 1
+    omega
+
+/-- the `foldl` loops of the transaction methods are `appendEvs` over the mapped list -/
+theorem foldl_appendOplog {α} (l : List α) (F : α → EvSpec) (cn : Catalog × Nu) :
+    l.foldl (fun (cn : Catalog × Nu) a => appendOplog cn.1 cn.2 (F a).h (F a).op (F a).doc (F a).changes) cn
+      = appendEvs cn (l.map F) := by
+  unfold appendEvs
+  rw [List.foldl_map]
+  rfl
+
 end Lungo
